@@ -3,7 +3,7 @@
 Require Extraction.
 Require ExtrOcamlBasic.
 Require Import Params StateW ModularW DisposeW TaggedW EpochW Ebr.
-Require Queue RegList Cell Traits Rc RcCheck RcChain RcSnapCheck GuardSeq RcSnapInv.
+Require Queue RegList Cell Traits Rc RcCheck RcChain RcSnapCheck GuardSeq RcSnapInv OnceLock.
 
 (* uniquely named entry points for the OCaml driver *)
 Definition queue_replay := Queue.replay.
@@ -25,4 +25,4 @@ Extraction "model.ml"
   TaggedW.t_with_high_tag TaggedW.t_ptr_eq
   EpochW.e_starting EpochW.e_wrapping_sub EpochW.e_is_pinned EpochW.e_pinned EpochW.e_unpinned EpochW.e_successor
   EpochW.e_value EpochW.is_expired
-  Ebr.ebr_replay Rc.rc_replay RcCheck.rc_invcheck RcChain.chain_line RcSnapCheck.rc_snapcheck RcSnapInv.rc_snapinv GuardSeq.guard_line GuardSeq.tls_line queue_replay list_replay cell_replay traits_line.
+  Ebr.ebr_replay Rc.rc_replay RcCheck.rc_invcheck RcChain.chain_line RcSnapCheck.rc_snapcheck RcSnapInv.rc_snapinv GuardSeq.guard_line GuardSeq.tls_line queue_replay list_replay cell_replay traits_line OnceLock.once_line.
